@@ -21,6 +21,9 @@ CHECKS["C17"] = ("exhaustive finite abstract evaluation of the name parser's dec
 CHECKS["C13"] = ("order-kind dataflow (ASC/DESC/UNORDERED) over the lumping functions, version-stamp (PAIR) abstract interpretation of SQRA.cut_and_merge over all four limit combinations, alias/ownership rule for inputs, abstract interpretation of sqra_normalize (dense and sparse sibling), workflow wiring",
     "Structural clauses of exact lumping decided for all matrices and operation histories: selectors ascending, index list filtered with the same set in the same order, descending pops, smallest-member representative, groups re-sorted, inputs not mutated, (matrix,list) pair from one version, diagonal = -row sum in both branches. Numerical equality of lumped sums is delegated to scipy and not decided.", "6 C13")
 
+CHECKS["C16"] = ("order-kind dataflow per dispatch branch, CFG dominator (must-pass-through) check, abstract interpretation of the parser branches and of get_increments/get_between_radii (symbolic n>=2 and n=1) with exact piecewise sequences",
+    "Ascending order on every format branch, non-negativity check before conversion and hash, x10 exactly once, hash provenance, increments and shell-boundary formulas (incl. single radius) decided on the current source. numpy's linspace/arange arithmetic and literal_eval are trusted.", "6 C16")
+
 NOT_APPLICABLE = {
     "C06": "Cartesian Voronoi cell geometry is produced by qhull and floating-point predicates (polygon vertex ordering, F2); no static abstract domain in reach separates the failing coordinate configurations; the one structural clause is too thin to claim the property (DESIGN.md section 6, C06).",
     "C07": "distinctness/separation/hemisphere membership of computed coordinates are numerical facts; the row-count and unit-norm clauses are already run-time assertions, so a static restatement would only test the presence of those asserts (DESIGN.md section 6, C07).",
